@@ -13,7 +13,7 @@ echo "--- clean tree demo:"; go test $race -vet=off -count=1 -timeout "$to" -run
 git checkout -q go.mod go.sum 2>/dev/null
 if git apply "$out"/patch.diff; then
   echo "--- build:"; go build ./... && echo ok
-  echo "--- suite with patch:"; go test -vet=off -count=1 -skip 'TestWriteControl|TestWritingFiles|TestDemo|TestC[0-9]+Demo|TestSeed' ./... 2>&1 | grep -v "^ok\|no test files" | tail -5
+  [ -n "${NOSUITE:-}" ] || { echo "--- suite with patch:"; go test -vet=off -count=1 -skip 'TestWriteControl|TestWritingFiles|TestDemo|TestC[0-9]+Demo|TestSeed' ./... 2>&1 | grep -v "^ok\|no test files" | tail -5; }
   echo "--- demo with patch:"; go test $race -vet=off -count=1 -timeout "$to" -run "$re" ./"$pkg" 2>&1 | tail -4
 else echo "PATCH DOES NOT APPLY"; fi
 cd /; git -C /repo worktree remove --force "$wt"
